@@ -107,7 +107,17 @@ def main() -> int:
             tests = " ".join(chosen) or "tests/api"
         if not args.skip_tests and not any(f.endswith((".cpp", ".hpp")) for f in files):
             t0 = time.time()
-            rt = sh(f"./py -m pytest -q -p no:cacheprovider --timeout=900 -x {tests}", cwd=wt, timeout=7200)
+            # tests that fail on the unchanged tree (the pinned baseline's always_fail list) are deselected
+            desel = ""
+            try:
+                base = json.load(open("/root/.vp/BASELINE.json"))
+                for t in base.get("always_fail", []):
+                    if t.startswith("tests."):
+                        mod, _, name = t.partition("::")
+                        desel += f" --deselect {mod.replace('.', '/')}.py::{name}"
+            except Exception:
+                pass
+            rt = sh(f"./py -m pytest -q -p no:cacheprovider --timeout=900 -x {desel} {tests}", cwd=wt, timeout=7200)
             tail = (rt.stdout.strip().splitlines() or [""])[-1]
             log["steps"].append({"tests": tests, "exit": rt.returncode, "summary": tail, "seconds": round(time.time() - t0)})
             if rt.returncode != 0:
